@@ -1273,7 +1273,7 @@ class Card:
             title = val.title
             yield title, level
 
-            if val.subsections:
+            if val.subsections and not val.folded:
                 yield from self._iterate_key_section_content(
                     val.subsections,
                     level=level + 1,
